@@ -111,8 +111,14 @@ def _immortalize():
 def boot(repo_src):
     sys.path.insert(0, repo_src)
     synthetic_version = _ensure_version_module(repo_src)
-    import stationeers_pytrapic  # noqa
-    from stationeers_pytrapic import compiler  # noqa  (imports astroid, every pass, types, symbols)
+    from sim.seams_base import STDOUT_PROXY
+    saved_stdout = sys.stdout
+    sys.stdout = STDOUT_PROXY  # what the package may bind at import time (see seams_base.StdStreamProxy)
+    try:
+        import stationeers_pytrapic  # noqa
+        from stationeers_pytrapic import compiler  # noqa  (imports astroid, every pass, types, symbols)
+    finally:
+        sys.stdout = saved_stdout
     import astroid
     pkg_file = os.path.abspath(stationeers_pytrapic.__file__)
     if not pkg_file.startswith(os.path.abspath(repo_src) + os.sep):
